@@ -72,6 +72,9 @@ func c12Price(r *rand.Rand) string {
 		return fmt.Sprint(1 + r.Intn(9))
 	case 3:
 		return "3"
+	case 5:
+		// more decimals than are kept: the reciprocal is taken from the price as declared
+		return []string{"0.000012345678", "1.123456789012", "0.00000001999", "3.14159265358979", "0.333333333333"}[r.Intn(5)]
 	case 4:
 		// magnitudes whose reciprocal truncates to zero at 8 decimals, or overflows ordinary ranges
 		return []string{"1500000000", "100000001", "123456789012.5", "99999999.99999999", "100000000", "0.00000001", "0.00000002", "0.0000001"}[r.Intn(8)]
@@ -276,6 +279,21 @@ func fix8(s string) (*big.Int, bool) {
 	return new(big.Int).Set(r.Num()), true
 }
 
+// ratOf reads a declared price exactly (it may carry more than 8 decimals).
+func ratOf(s string) *big.Rat {
+	r, ok := new(big.Rat).SetString(s)
+	if !ok {
+		panic("c12: bad price " + s)
+	}
+	return r
+}
+
+// floor8 is the scaled integer of a non-negative rational truncated to 8 decimals.
+func floor8(r *big.Rat) *big.Int {
+	x := new(big.Int).Mul(r.Num(), c12Scale)
+	return x.Quo(x, r.Denom())
+}
+
 func fix8String(v *big.Int) string {
 	return gen.DecString(new(big.Rat).SetFrac(v, c12Scale))
 }
@@ -316,13 +334,13 @@ func c12Replay(h c12Hist, upTo int) *c12State {
 // of {u, w}: a declared price (exact), or the reciprocal, for which both the
 // exact and the pre-truncated value are admissible.
 type c12Factor struct {
-	direct *big.Int // scaled declared price, if declared "1 w = p u"
-	inv    *big.Int // scaled declared price p of "1 u = p w" (factor = 1/p)
+	direct *big.Rat // declared price (exact, any number of decimals), if declared "1 w = p u"
+	inv    *big.Rat // declared price p of "1 u = p w" (factor = 1/p)
 }
 
 func (st *c12State) factor(u, w string) c12Factor {
 	l := st.latest[pairKey(u, w)]
-	p, _ := fix8(l.Price)
+	p := ratOf(l.Price)
 	if l.Com == w {
 		return c12Factor{direct: p}
 	}
@@ -332,14 +350,14 @@ func (st *c12State) factor(u, w string) c12Factor {
 // apply returns the admissible values of trunc8(val * factor).
 func (f c12Factor) apply(val *big.Int) []*big.Int {
 	if f.direct != nil {
-		x := new(big.Int).Mul(val, f.direct)
-		return []*big.Int{x.Quo(x, c12Scale)}
+		x := new(big.Int).Mul(val, f.direct.Num())
+		return []*big.Int{x.Quo(x, f.direct.Denom())}
 	}
 	// exact reciprocal: trunc8(val / p)
-	a := new(big.Int).Mul(val, c12Scale)
-	a.Quo(a, f.inv)
+	a := new(big.Int).Mul(val, f.inv.Denom())
+	a.Quo(a, f.inv.Num())
 	// pre-truncated reciprocal: trunc8(val * trunc8(1/p))
-	inv8 := new(big.Int).Quo(c12Scale2, f.inv)
+	inv8 := floor8(new(big.Rat).Inv(f.inv))
 	b := new(big.Int).Mul(val, inv8)
 	b.Quo(b, c12Scale)
 	if a.Cmp(b) == 0 {
@@ -443,19 +461,19 @@ func (st *c12State) judge(v, c, obs string) (key, why string) {
 		return "price-format", fmt.Sprintf("price of %s in %s is %s: not a decimal with <= 8 decimals", c, v, obs)
 	}
 	if l := st.latest[pairKey(c, v)]; l != nil {
-		p, _ := fix8(l.Price)
+		p := ratOf(l.Price)
 		good := false
 		var want string
 		if l.Com == c {
-			// 1 c = p v
-			good = o.Cmp(p) == 0
+			// 1 c = p v (to the 8 decimals that are kept)
+			good = o.Cmp(floor8(p)) == 0
 			want = "exactly " + l.Price + " (latest declaration `price " + c + " " + l.Price + " " + v + "`)"
 		} else {
-			// 1 v = p c: |obs - 1/p| <= 1e-8  <=>  |obs*p - 1| <= 1e-8 * p (scaled arithmetic)
-			x := new(big.Int).Mul(o, p) // scale 1e16
-			x.Sub(x, c12Scale2)
+			// 1 v = p c: |obs - 1/p| <= 1e-8  <=>  |obs*p - 1| <= 1e-8 * p
+			x := new(big.Rat).Mul(new(big.Rat).SetFrac(o, c12Scale), p)
+			x.Sub(x, big.NewRat(1, 1))
 			x.Abs(x)
-			good = x.Cmp(p) <= 0 // 1e-8*p at scale 1e16 is the scaled p itself
+			good = x.Cmp(new(big.Rat).Mul(p, big.NewRat(1, 100000000))) <= 0
 			want = "within 1e-8 of 1/" + l.Price + " (latest declaration `price " + v + " " + l.Price + " " + c + "`)"
 		}
 		if good {
@@ -467,7 +485,7 @@ func (st *c12State) judge(v, c, obs string) (key, why string) {
 		}
 		for _, old := range l.older {
 			parts := strings.SplitN(old, ":", 2)
-			op, _ := fix8(parts[1])
+			op := floor8(ratOf(parts[1]))
 			if strings.HasPrefix(parts[0], c+">") && op.Cmp(o) == 0 {
 				return "stale-price", fmt.Sprintf("price of %s in %s is %s, expected %s; the observed value is an earlier declaration (%s)", c, v, obs, want, old)
 			}
